@@ -84,6 +84,9 @@ const (
 	vpConnWriteEAGAIN
 	vpConnWritePartial
 	vpConnRead
+	vpStreamCloseLoaded
+	vpPollGotStream
+	vpNLBeforeBacklogSend
 	vpPointCount
 )
 
@@ -149,6 +152,9 @@ var vpPointNames = [...]string{
 	vpConnWriteEAGAIN:         "ConnWriteEAGAIN",
 	vpConnWritePartial:        "ConnWritePartial",
 	vpConnRead:                "ConnRead",
+	vpStreamCloseLoaded:       "StreamCloseLoaded",
+	vpPollGotStream:           "PollGotStream",
+	vpNLBeforeBacklogSend:     "NLBeforeBacklogSend",
 }
 
 // verifHookFn is installed by the verification harness. obj is the object the point
